@@ -93,7 +93,8 @@ pub fn exec(tag: i64, inp: &[i64]) -> Vec<i64> {
         160 => {
             let (kind, timeout, np) = (inp[0], inp[1], inp[2] as usize);
             let prior = &inp[3..3 + 4 * np];
-            let msg = &inp[3 + 4 * np..];
+            let msg = &inp[3 + 4 * np..3 + 4 * np + 4];
+            let cont = &inp[3 + 4 * np + 4..];
             let mut sc = Sc::new(kind, timeout);
             let mut clock = Clock(0);
             let mut scratch = Vec::new();
@@ -108,7 +109,16 @@ pub fn exec(tag: i64, inp: &[i64]) -> Vec<i64> {
             if !crate::sm::debug_touch(&sc) {
                 return vec![PANIC];
             }
-            vec![out.iter().all(|&x| x == NONE) as i64, (sc == before) as i64]
+            let eq = sc == before;
+            // the rest of the stream is reported identically with and without the message
+            // (not relying on the scanner's own `==`)
+            let t = clock.0;
+            let mut without = before;
+            let (mut o1, mut o2) = (Vec::new(), Vec::new());
+            if !sc.run(&mut Clock(t), cont, &mut o1) || !without.run(&mut Clock(t), cont, &mut o2) {
+                return vec![PANIC];
+            }
+            vec![out.iter().all(|&x| x == NONE) as i64, eq as i64, (o1 == o2) as i64]
         }
         161 => {
             let n = inp[0];
@@ -382,6 +392,56 @@ pub fn gen_c15(tier: Tier, seed: u64, em: &mut Emitter) {
         inp.extend_from_slice(&ops);
         em.emit_k(&format!("drift-cycles/kind={}", kind), 150, inp);
     }
+    // all 16 channels in the same phase at once (everything selected / every channel with a
+    // pending first value byte / fifteen pending and one not), in any channel order and with
+    // time steps between and after, then polls and completions on some of them
+    let nall = if tier == Tier::Thorough { 2_000 } else { 200 };
+    for _ in 0..nall {
+        let kind = r.below(3) as i64;
+        let timeout = if kind == 2 { r.pick(&[0i64, 5, 1000, 1_000_000]) } else { 0 };
+        let mut order: Vec<i64> = (0..16).collect();
+        for i in (1..16).rev() {
+            order.swap(i, r.below(i as u64 + 1) as usize);
+        }
+        let skip = if r.chance(1, 3) { r.below(16) as i64 } else { -1 };
+        let first = r.pick(&[6i64, 38]);
+        let mut ops: Vec<i64> = Vec::new();
+        for &c in &order {
+            if kind == 0 {
+                if c != skip {
+                    ops.extend_from_slice(&[0, 176 + c, 3, c + 1]);
+                }
+            } else {
+                ops.extend_from_slice(&[0, 176 + c, 99, c, 0, 176 + c, 98, c + 1]);
+                if c != skip {
+                    ops.extend_from_slice(&[0, 176 + c, first, 10 + c]);
+                }
+            }
+            if kind == 2 && r.chance(1, 4) {
+                ops.extend_from_slice(&[4, polling::time_step(&mut r, timeout), 0, 0]);
+            }
+        }
+        if kind == 2 {
+            ops.extend_from_slice(&[4, polling::time_step(&mut r, timeout), 0, 0]);
+        }
+        let (a, b) = (order[r.below(16) as usize], order[r.below(16) as usize]);
+        for &c in &[a, b, a] {
+            if kind == 2 {
+                ops.extend_from_slice(&[3, c, 0, 0]);
+            }
+            if kind == 0 {
+                ops.extend_from_slice(&[0, 176 + c, 35, 99]);
+            } else {
+                ops.extend_from_slice(&[0, 176 + c, if first == 6 { 38 } else { 6 }, 77]);
+            }
+            if kind == 2 {
+                ops.extend_from_slice(&[4, polling::time_step(&mut r, timeout), 0, 0, 3, c, 0, 0]);
+            }
+        }
+        let mut inp = vec![kind, timeout, 2, a, if b == a { (a + 1) % 16 } else { b }, 0];
+        inp.extend_from_slice(&ops);
+        em.emit_k(&format!("all-channels-same-phase/kind={}", kind), 150, inp);
+    }
     // seeded random interleavings of up to 16 channels over the full alphabet
     let n = if tier == Tier::Thorough { 150_000 } else { 6_000 };
     for _ in 0..n {
@@ -426,6 +486,7 @@ pub fn gen_c16(tier: Tier, seed: u64, em: &mut Emitter) {
                 let mut inp = vec![kind, timeout, np as i64];
                 inp.extend_from_slice(&prior);
                 inp.extend_from_slice(&[k, s, a, b]);
+                random_ops(r, kind % 10, timeout, 6, &mut inp);
                 em.emit_k(&format!("transparent/kind={}", kind), 160, inp);
             };
             // all status bytes that are not Control Change
@@ -504,7 +565,52 @@ pub fn gen_c16(tier: Tier, seed: u64, em: &mut Emitter) {
         let mut inp = vec![kind, timeout, (prior.len() / 4) as i64];
         inp.extend_from_slice(&prior);
         inp.extend_from_slice(&[r.pick(&[0i64, 1, 5, 6]), s, a, b]);
+        // the rest of the stream: mostly the completion of the open construct on channel c
+        if k10 == 0 {
+            inp.extend_from_slice(&[0, 176 + c, 32 + r.below(32) as i64, r.below(128) as i64]);
+        } else {
+            inp.extend_from_slice(&[0, 176 + c, r.pick(&[6i64, 38, 96]), r.below(128) as i64]);
+            if k10 == 2 {
+                inp.extend_from_slice(&[4, polling::time_step(&mut r, timeout), 0, 0, 3, c, 0, 0]);
+            }
+        }
+        random_ops(&mut r, k10, timeout, 4, &mut inp);
         em.emit_k(&format!("transparent-after-open-construct/kind={}", kind), 160, inp);
+    }
+    // wrap-around sandwiches: progress on channel c, W-1 resets, a non-contributing message on
+    // c, one more reset, then the completion on c -- a lazily applied reset (generation counter
+    // of 8 or 16 bits) must not be undone by the message in between
+    for kind in 0..3i64 {
+        for &w in &[256i64, 65536] {
+            for variant in 0..6 {
+                let timeout = if kind == 2 { r.pick(&[0i64, 5, 1000]) } else { 0 };
+                let c = r.below(16) as i64;
+                let mut prior: Vec<i64> = if kind == 0 {
+                    vec![0, 176 + c, 4, 9]
+                } else {
+                    vec![0, 176 + c, 99, 3, 0, 176 + c, 98, 37, 0, 176 + c, r.pick(&[6i64, 38]), 126]
+                };
+                prior.extend_from_slice(&[2, w - 2 - (variant % 2), 0, 0]);
+                let noise = match variant / 2 {
+                    0 => [0, 176 + c, if kind == 0 { 70 } else { 7 }, 100],
+                    1 => [0, 144 + c, 6, 1],
+                    _ => [0, 176 + c, 120, 0],
+                };
+                let mut inp = vec![kind, timeout, (prior.len() / 4) as i64];
+                inp.extend_from_slice(&prior);
+                inp.extend_from_slice(&noise);
+                inp.extend_from_slice(&[2, variant % 2, 0, 0]);
+                if kind == 0 {
+                    inp.extend_from_slice(&[0, 176 + c, 36, 5]);
+                } else {
+                    inp.extend_from_slice(&[0, 176 + c, 38, 5, 0, 176 + c, 6, 7]);
+                    if kind == 2 {
+                        inp.extend_from_slice(&[4, timeout.max(1), 0, 0, 3, c, 0, 0]);
+                    }
+                }
+                em.emit_k(&format!("transparent/reset-wrap-sandwich/kind={}", kind), 160, inp);
+            }
+        }
     }
 }
 
